@@ -92,6 +92,7 @@ func c12Pay(c *fw.Ctx, i int) {
 	p0 := &codecs.VP9Payloader{FlexibleMode: flex, InitialPictureIDFn: func() uint16 { return start }}
 	insts := []*codecs.VP9Payloader{p0}
 	var kpPay keeper // every packet list ever returned, kept as returned
+	var streamRx codecs.VP9Packet
 	nframes := r.Range(2, 6)
 	for k := 0; k < nframes; k++ {
 		if k > 0 && r.Chance(1, 6) {
@@ -268,6 +269,17 @@ func c12Pay(c *fw.Ctx, i int) {
 				if !bytes.Equal(body, pk[n:]) {
 					c.Fail("C12/roundtrip/vp9packet-payload-differs", fmt.Sprintf("VP9Packet returns %d bytes, the descriptor is %d bytes long", len(body), n), wit())
 					return
+				}
+				{
+					// the same packet through the ONE VP9Packet a receiving loop keeps: it reads like the fresh decode
+					var sb []byte
+					var serr error
+					fw.Guard(func() { sb, serr = streamRx.Unmarshal(fw.Exact(pk)) })
+					if serr != nil || !bytes.Equal(sb, body) || (instVP9{&streamRx}).Meta() != (instVP9{&vp}).Meta() {
+						c.Fail("C12/roundtrip/reused-vp9packet-differs-from-a-fresh-one", "a VP9Packet that decoded the earlier packets of the stream reads this packet differently from a fresh one",
+							wit("reused", fw.Trunc((instVP9{&streamRx}).Meta(), 400), "fresh", fw.Trunc((instVP9{&vp}).Meta(), 400)))
+						return
+					}
 				}
 				if head != first || vp.B != first || vp.E != last || vp.PictureID != wantID {
 					c.Fail("C12/roundtrip/vp9packet-fields", fmt.Sprintf("VP9Packet: head=%v B=%v E=%v PictureID=%d", head, vp.B, vp.E, vp.PictureID), wit())
